@@ -621,7 +621,10 @@ def normal_rules(run, db):
                           '%s hands the non-zero azimuthal slope `%s` to surface_normal_from_cylindrical_derivatives and uses its r == 0 value (ft/r := 0): for a surface that is not symmetric about '
                           'its local origin the ray through that origin (the chief ray of an off-axis conic) gets a normal without the slope across the decentre' % (mname, ast.unparse(ft_arg) if ft_arg is not None else '?'), m.loc(c))
     if ncall < 2:
-        raise AnalysisError('Surface: fewer than two closures convert cylindrical slopes to a normal')
+        if not getattr(run, 'axis_on_values', None):
+            raise AnalysisError('Surface: fewer than two closures convert cylindrical slopes to a normal')
+        run.info('C19.axis0: the closures of Surface that convert cylindrical slopes to a normal are not where this reading looks (%d found); '
+                 'the ray through the local origin was decided on values for %d surfaces' % (ncall, run.axis_on_values))
     # formula: x = fp cos t - ft sin t / r ; y = fp sin t + ft cos t / r
     it = install_pi(Interp(db, NormDomain()))
     dom = it.dom
@@ -960,11 +963,11 @@ def closure_gradient_rules(run, db):
     ci = db.cls(SFQ + 'Surface')
     init = db.method(ci, '__init__')
     # factories: classmethods that define a closure (whatever it is called) or go through another factory of the class
-    facts = [(nm, m) for nm, m in sorted(ci.methods.items()) if 'classmethod' in m.decorators and
-             (any(isinstance(n, ast.FunctionDef) and n is not m.node for n in ast.walk(m.node)) or
-              any(isinstance(c, ast.Call) and isinstance(c.func, ast.Attribute) and isinstance(c.func.value, ast.Name) and c.func.value.id == m.params[0] for c in ast.walk(m.node)))]
+    # factories: the classmethods of Surface; which of them hand a sag / slope function to the constructor is seen by running them
+    # (a closure defined in the method, a module-level helper bound with functools.partial, another factory of the class ...)
+    facts = [(nm, m) for nm, m in sorted(ci.methods.items()) if 'classmethod' in m.decorators and m.params]
     if len(facts) < 3:
-        raise AnalysisError('Surface: fewer than three factories that build a sag / slope closure (%s)' % [nm for nm, _ in facts])
+        raise AnalysisError('Surface: fewer than three factories (%s)' % [nm for nm, _ in facts])
     n_ok = 0
     skipped = []
     for nm, m in facts:
@@ -1032,6 +1035,10 @@ def check(run, db, tier):
     run.rule('C19.rigid', 'local/global frame transforms are R(X-P) and R X + P with directions rotated only; raytrace uses (P, R) in and (P, R^T) out')
     run.rule('C19.normal', 'the normal handed to the interaction is the gradient of z - sag; Newton step and first guess; polar-to-Cartesian slope formula')
     run.rule('C19.axis0', 'no unguarded division by the radial coordinate on the normal path')
+    # the ray through the local origin decided on values first (constructors run, the stored closure called on a two-ray bundle):
+    # the reading of the closures in normal_rules defers to it when it does not find them where it looks
+    from .c19values import axis_value_rules
+    run.axis_on_values = run.group(axis_value_rules, run, db)
     for fn in (vector_rules, frame_rules, normal_rules, rotation_rules, state_rules, indexspace_rules, closure_gradient_rules):
         run.group(fn, run, db)
     # the slopes handed to the normal are the derivatives of the sag (shared with C09.rule)
